@@ -14,10 +14,10 @@ duplicate rules are `readIni`/`dupPairs` (C20).
 -/
 namespace Atsim
 
-/-- number of parts when splitting at a separator must be exactly two -/
+/-- number of parts when splitting at a separator must be exactly two, and neither part may be blank -/
 def splitKey (parts : List String) : Option (String × String) :=
   match parts with
-  | [a, b] => some (strip a, strip b)
+  | [a, b] => if strip a == "" || strip b == "" then none else some (strip a, strip b)      -- (a species needs a name: fix adc5aa1)
   | _ => none
 
 inductive SplineErr where
